@@ -4,6 +4,7 @@ Exploration is *re-execution based*: a path is a list of branch decisions; the t
 scratch for every path, so symbolic state can be ordinary mutable Python objects (no sharing between
 paths - lesson (2) of the spike).
 """
+import os
 import time
 from fractions import Fraction
 import z3
@@ -163,7 +164,7 @@ class Ctx:
             return True
         if cond is False:
             return False
-        r = self.check_sat([cond], timeout_ms=min(self.timeout_ms, 3000))
+        r = self.check_sat([cond], timeout_ms=min(self.timeout_ms, int(os.environ.get("VF_FEAS_MS", "1200"))))
         return r != z3.unsat
 
     def valid(self, cond):
